@@ -343,8 +343,10 @@ class HplPattern(HplAstObject):
     def __str__(self) -> str:
         t = ''
         if self.max_time < INF:
-            if self.max_time < 1.0:
-                t = f' within {self.max_time * 1000}ms'
+            ms = self.max_time * 1000
+            # milliseconds only if they read back as the same bound (the parser divides by 1000)
+            if self.max_time < 1.0 and ms / 1000.0 == self.max_time:
+                t = f' within {ms}ms'
             else:
                 t = f' within {self.max_time}s'
         if self.pattern_type.is_existence:
